@@ -113,6 +113,9 @@ func body(s *simrt.Sim, tier string) {
 	})
 	// closeOnce is what every Close caller does: on return no callback may be running
 	closeOnce := func(who string) {
+		if closeInvoke == 0 {
+			closeInvoke = s.Stamp() // the earliest Close invocation, whoever makes it
+		}
 		p.Close()
 		if inCallback > 0 {
 			s.Fail("close-returned-during-callback", fmt.Sprintf("Close (%s) returned while a callback is still running", who))
@@ -155,7 +158,6 @@ func body(s *simrt.Sim, tier string) {
 	if closeRace {
 		s.Go("closer", func() {
 			s.Sleep(sleeps[s.Choose(len(sleeps), "closeAt")])
-			closeInvoke = s.Stamp()
 			s.Logf("close")
 			closeOnce("closer")
 		})
